@@ -84,6 +84,20 @@ pub fn thrift_text_docs() -> Vec<(&'static str, Vec<(String, String)>)> {
     vec![
         ("type cycles closed through Arc-wrapped fields next to a member that cannot derive Hash / Ord", vec![f("arcs.thrift", &arc_cycle_text())]),
         (
+            "constants of struct type whose members are all given (with and without unknown-field retention)",
+            vec![f(
+                "sconst.thrift",
+                "namespace rs demo.sconst\nenum Mode { OFF = 0, ON = 1 }\nstruct Inner { 1: required i32 n, 2: required string s }\nstruct Conf { 1: required i32 port, 2: required string host, 3: required bool tls, 4: required Mode mode, 5: required double ratio, 6: required Inner inner, 7: optional i64 ttl }\nconst Inner INNER = {\"n\": 1, \"s\": \"x\"}\nconst Conf FULL = {\"port\": 80, \"host\": \"h\", \"tls\": true, \"mode\": Mode.ON, \"ratio\": 0.5, \"inner\": {\"n\": 2, \"s\": \"y\"}, \"ttl\": 9}\nconst Conf PART = {\"port\": 81, \"host\": \"g\", \"tls\": false, \"mode\": 0, \"ratio\": 1, \"inner\": {\"n\": 3, \"s\": \"z\"}}\nstruct User { 1: Conf c = {\"port\": 1, \"host\": \"a\", \"tls\": true, \"mode\": 1, \"ratio\": 2.5, \"inner\": {\"n\": 4, \"s\": \"w\"}} }\n",
+            )],
+        ),
+        (
+            "types referenced from one position only (map key, map value, set element, list element, typedef target, throws, nested key) and reached through a service",
+            vec![f(
+                "reach.thrift",
+                "namespace rs demo.reach\nenum OnlyKey { A = 1, B = 2 }\nenum OnlyKey2 { A = 1 }\nenum OnlyVal { A = 1 }\nenum OnlyElem { A = 1 }\nstruct KeyStruct { 1: i32 a }\nstruct ValStruct { 1: i32 a }\nstruct ElemStruct { 1: string s }\nstruct SetElem { 1: i64 x }\ntypedef i64 OnlyAlias\ntypedef OnlyAlias AliasKey\nexception Boom { 1: string why }\nstruct Unused { 1: i32 never }\nstruct Holder { 1: map<OnlyKey, i32> m1, 2: map<KeyStruct, string> m2, 3: map<i32, map<OnlyKey2, OnlyVal>> m3, 4: list<OnlyElem> l, 5: set<SetElem> st, 6: map<string, ValStruct> m4, 7: list<list<ElemStruct>> ll, 8: map<AliasKey, i32> m5, 9: optional map<OnlyKey, list<KeyStruct>> m6 (pilota.rust_type = \"btree\") }\nservice Reach { Holder get(1: i32 id) throws (1: Boom b) }\n",
+            )],
+        ),
+        (
             "names that collide after case conversion in chains (a kept spelling equals the converted form of a third name)",
             vec![f(
                 "chain.thrift",
@@ -224,6 +238,10 @@ fn run_text_case(c: &Case, files: Vec<(String, String)>, slot: &str) -> Result<(
     }
     if !c.cfg.change_case {
         args.push("--no-change-case".into());
+    }
+    if c.cfg.ignore_unused {
+        // only what the services of the main file reach is emitted
+        args.push("--ignore-unused".into());
     }
     let b = run_vbuild(&args, Some(1 + (slot.len() % 4) * 2), 60);
     let idl_text: String = files.iter().map(|(n, t)| format!("// {}\n{}\n", n, t)).collect();
@@ -431,9 +449,9 @@ pub fn run(ctx: &Ctx) -> i32 {
     for (i, praw) in sample(&vcore::pschema::arb_raw_pdoc(), ctx.seed, "c14-proto", ctx.tier.pick(30, 600) as usize).into_iter().enumerate() {
         cases.push(Case { raw: None, kitchen: None, cfg: pcfgs[i % 3], proto: Some(praw), pkitchen: None, pside: None, ttext: None });
     }
-    // hand-shaped Thrift text documents under four configurations each
+    // hand-shaped Thrift text documents under six configurations each
     for k in 0..thrift_text_docs().len() {
-        for c in [BCfg { split: false, keep: false, change_case: true, ignore_unused: false }, BCfg { split: true, keep: true, change_case: true, ignore_unused: false }, BCfg { split: false, keep: false, change_case: false, ignore_unused: false }, BCfg { split: true, keep: false, change_case: false, ignore_unused: false }] {
+        for c in [BCfg { split: false, keep: false, change_case: true, ignore_unused: false }, BCfg { split: true, keep: true, change_case: true, ignore_unused: false }, BCfg { split: false, keep: false, change_case: false, ignore_unused: false }, BCfg { split: true, keep: false, change_case: false, ignore_unused: false }, BCfg { split: false, keep: true, change_case: true, ignore_unused: true }, BCfg { split: true, keep: false, change_case: true, ignore_unused: true }] {
             cases.push(Case { raw: None, kitchen: None, cfg: c, proto: None, pkitchen: None, pside: None, ttext: Some(k) });
         }
     }
